@@ -403,6 +403,7 @@ class Seam:
         self.order_alias = tuple(order_alias)   # replica prefixes that share one enumeration order
         self.patch_time = patch_time            # time.time() reads the simulated clock (gzip headers, ...)
         self.events = []
+        self.event_ops = []
         self.n = 0
         self.op_n = 0
         self.stats = {}
@@ -441,6 +442,7 @@ class Seam:
 
     def _event(self, kind, rel, outcome):
         self.events.append((self.n, kind, rel, outcome))
+        self.event_ops.append((self.op_index, self.op_n))      # (not part of the digest: where in which operation the call was made)
         if kind in WRITE_KINDS:
             self.write_events.append((self.op_index, kind, rel, outcome))
 
